@@ -2,8 +2,10 @@ package main
 
 import (
 	"fmt"
+	"math/rand"
 	"sort"
 	"strings"
+	"sync"
 	"time"
 
 	"github.com/andres-erbsen/clock"
@@ -167,8 +169,22 @@ func zlit(i int) string {
 
 func c15(ctx *hlib.Ctx) {
 	r := hlib.NewRng(ctx.Seed)
+	// cases are queued and executed by a worker pool (clock.Mock.Add sleeps 1ms per tick);
+	// every case owns its Manager and clock, results are emitted in queue order
+	type job struct {
+		cfg    c15cfg
+		ops    []c15op
+		npeers int
+		kind   string
+		tags   []string
+	}
+	var jobs []job
 	emit := func(cfg c15cfg, ops []c15op, npeers int, kind string, tags ...string) {
-		ops = c15drain(cfg, append([]c15op{}, ops...), npeers)
+		jobs = append(jobs, job{cfg, append([]c15op{}, ops...), npeers, kind, tags})
+	}
+	runJob := func(j job) hlib.Case {
+		cfg := j.cfg
+		ops := c15drain(cfg, j.ops, j.npeers)
 		so, sb, nres, nfail := c15run(cfg, ops)
 		var hist []string
 		for _, o := range ops {
@@ -176,11 +192,48 @@ func c15(ctx *hlib.Ctx) {
 		}
 		hist = append(hist, "policy:"+cfg.policy)
 		coq := fmt.Sprintf("mkcase (mkcfg %d %s %s) %s %s", cfg.timeout, zlit(cfg.agent), zlit(cfg.origin), hlib.List(so), hlib.List(sb))
-		ctx.Emit(hlib.Case{Coq: coq, NT: nres >= 2 && nfail >= 1, Kind: kind, Hist: hist, Tags: tags,
+		return hlib.Case{Coq: coq, NT: nres >= 2 && nfail >= 1, Kind: j.kind, Hist: hist, Tags: j.tags,
 			Key: cfg.policy + "|" + coq,
 			Sample: map[string]string{"policy": cfg.policy, "cfg": fmt.Sprintf("timeout=%d agent=%d origin=%d pieces=%d", cfg.timeout, cfg.agent, cfg.origin, cfg.npieces),
-				"ops": strings.Join(so, "; "), "obs": strings.Join(sb, "; ")}})
+				"ops": strings.Join(so, "; "), "obs": strings.Join(sb, "; ")}}
 	}
+	defer func() {
+		out := make([]hlib.Case, len(jobs))
+		var wg sync.WaitGroup
+		next := make(chan int)
+		for w := 0; w < 32; w++ {
+			wg.Add(1)
+			go func() {
+				defer wg.Done()
+				for k := range next {
+					out[k] = runJob(jobs[k])
+				}
+			}()
+		}
+		// the default policy consumes the global math/rand stream: its cases run in queue
+		// order on one goroutine so that a run is a function of the seed; rarest-first cases
+		// (no randomness) are spread over the pool
+		rand.Seed(int64(ctx.Seed))
+		wg.Add(1)
+		go func() {
+			defer wg.Done()
+			for k := range jobs {
+				if jobs[k].cfg.policy == piecerequest.DefaultPolicy {
+					out[k] = runJob(jobs[k])
+				}
+			}
+		}()
+		for k := range jobs {
+			if jobs[k].cfg.policy != piecerequest.DefaultPolicy {
+				next <- k
+			}
+		}
+		close(next)
+		wg.Wait()
+		for _, c := range out {
+			ctx.Emit(c)
+		}
+	}()
 	res := func(p int, org bool, eg bool, cands ...int) c15op {
 		return c15op{k: kReserve, p: p, org: org, eg: eg, cands: cands}
 	}
@@ -226,9 +279,9 @@ func c15(ctx *hlib.Ctx) {
 		// exhaustive small scope (validates the correspondence; not the proof):
 		// 2 peers, 2 pieces, limit 1 and 2, timeout 1, every history of length <= 4 over 13 ops
 		alpha := []c15op{
-			res(0, false, false, 0, 1), res(1, false, false, 0, 1), res(0, false, true, 0, 1), res(1, false, true, 0, 1),
-			{k: kUnsent, p: 0, i: 0}, {k: kInvalid, p: 1, i: 0}, {k: kInvalid, p: 0, i: 1},
-			{k: kClear, i: 0}, {k: kClear, i: 1}, {k: kClearPeer, p: 0}, {k: kClearPeer, p: 1},
+			res(0, false, false, 0, 1), res(1, false, false, 0, 1), res(0, false, true, 0, 1),
+			{k: kUnsent, p: 0, i: 0}, {k: kInvalid, p: 1, i: 0},
+			{k: kClear, i: 0}, {k: kClearPeer, p: 0}, {k: kClearPeer, p: 1},
 			{k: kTick, dt: 1}, {k: kTick, dt: 2},
 		}
 		for _, lim := range []int{1, 2} {
